@@ -70,7 +70,11 @@ fn resolve_input(spec: &SchemaSpec, dim: usize, i: &InSpec) -> Vec<f64> {
             }
         }
         _ => {
-            let bps = spec.breakpoints();
+            let mut bps = spec.breakpoints();
+            if bps.is_empty() {
+                // no breakpoint at all (hard shrink with a negative lambda): probe around 0 and -lambda
+                bps = vec![0.0, 1.0, -1.0];
+            }
             let row = spec.row(dim).unwrap();
             x[row] = bps[i.bp as usize % bps.len()] + i.off as f64 / 4.0;
         }
@@ -314,7 +318,7 @@ impl Property for C17 {
         "C17"
     }
     fn rule(&self) -> String {
-        "every schema generator (ReLU, leaky ReLU, hard tanh, hard shrink, hard sigmoid, threshold, argmax, class_characterization, inf_norm) in dims 1..6 (thorough 1..8; >= 2 for argmax/class), every row/class, dyadic parameters (alpha incl. 0, negative, > 1; min <= max incl. equal; lambda >= 0), compared with its textbook definition on ALL full-dimensional cells by exact LP and by evaluate() at inputs whose relevant component is a breakpoint, a breakpoint +- 1/4, +- 1/2, +- 2 (argmax/class: 3-letter alphabet, ties everywhere); from_poly with/without else-branch against the polytope indicator; from_slice+compose+remove_axes against T(embed(y)); 1 case in 300: inf_norm / class_characterization / from_poly(hyperrectangle) in dimensions 520-1300 judged by evaluation at probe inputs. Non-trivial = at least one input exactly on a breakpoint/tie (slice: a decision and a removed axis); distinct = distinct serialised cases".into()
+        "every schema generator (ReLU, leaky ReLU, hard tanh, hard shrink, hard sigmoid, threshold, argmax, class_characterization, inf_norm) in dims 1..6 (thorough 1..8; >= 2 for argmax/class), every row/class, dyadic parameters (alpha incl. 0, negative, > 1; min <= max incl. equal; lambda >= 0), compared with its textbook definition on ALL full-dimensional cells by exact LP and by evaluate() at inputs whose relevant component is a breakpoint, a breakpoint +- 1/4, +- 1/2, +- 2 (argmax/class: 3-letter alphabet, ties everywhere); from_poly with/without else-branch against the polytope indicator; from_slice+compose+remove_axes against T(embed(y)); hard shrink also with negative lambda (identity); 1 case in 300: inf_norm / class_characterization / from_poly(hyperrectangle) in dimensions 520-1300 judged by evaluation at probe inputs. Non-trivial = at least one input exactly on a breakpoint/tie (slice: a decision and a removed axis); distinct = distinct serialised cases".into()
     }
     fn assumptions(&self) -> Vec<String> {
         vec![
